@@ -84,6 +84,15 @@ func MultiBucket(fs afero.Fs, opts ...MultiOption) (*MultiBucketBackend, error) 
 	}
 	b.metaStore = newMetaStore(b.configOnly.metaFs, modTimeFsCalc(fs))
 
+	// Directories inside the buckets that an interrupted run left empty:
+	if buckets, err := afero.ReadDir(bucketsFs, ""); err == nil {
+		for _, bucket := range buckets {
+			if bucket.IsDir() {
+				pruneEmptyDirs(bucketsFs, bucket.Name(), nil)
+			}
+		}
+	}
+
 	return b, nil
 }
 
